@@ -77,6 +77,8 @@ func runC13(p *Prog, r *Report) {
 	c13Addressed(p, r)
 	c13Cutsets(p, r)
 	c13Identity(p, r)
+	r.Rule("D10-parent-origin", "pom.xml writer: a parent's requirements are filed under the path of the parent file that was opened")
+	c13ParentOrigin(p, r, "D10-parent-origin")
 }
 
 func c13PackageJSON(p *Prog, r *Report) {
@@ -697,4 +699,72 @@ func c13Identity(p *Prog, r *Report) {
 	}
 	r.Instances("D9-identity", "parent-coordinate comparisons", na, 3)
 	r.Instances("D9-identity", "dependency identity comparisons", nb, 1)
+}
+
+// c13ParentOrigin: while walking the local parent POMs, the writer opens a file, files that file's
+// requirements and properties under an origin built from a path, and remembers a path to write the
+// file back to. All three must be the same path value; an origin built from the referencing file's
+// path is never looked up, so patches that belong to the parent are silently dropped.
+func c13ParentOrigin(p *Prog, r *Report, rule string) {
+	fn := p.Func("guidedremediation/internal/manifest/maven", "readWriter.Write")
+	if fn == nil {
+		r.Undecided(rule, "anchor:maven.readWriter.Write", "-", "not found")
+		return
+	}
+	// the parent walk is the loop that contains the mavenOrigin call
+	var walkHdr *ssa.BasicBlock
+	forEachInstr(fn, func(b *ssa.BasicBlock, _ int, in ssa.Instruction) {
+		if c, ok := in.(*ssa.Call); ok && c.Call.StaticCallee() != nil && c.Call.StaticCallee().Name() == "mavenOrigin" && inLoop(b) {
+			walkHdr = loopHeaderOf(b)
+		}
+	})
+	var opened ssa.Value
+	var openBlk *ssa.BasicBlock
+	forEachInstr(fn, func(b *ssa.BasicBlock, _ int, in ssa.Instruction) {
+		c, ok := in.(*ssa.Call)
+		if ok && c.Call.IsInvoke() && c.Call.Method.Name() == "Open" && walkHdr != nil && loopHeaderOf(b) == walkHdr {
+			opened = c.Call.Args[0]
+			openBlk = b
+		}
+	})
+	site := "maven.readWriter.Write"
+	if opened == nil {
+		r.Fail(rule, site+":open", p.Pos(fn.Pos()), "the writer no longer opens the local parent POMs in a loop")
+		return
+	}
+	n := 0
+	forEachInstr(fn, func(b *ssa.BasicBlock, _ int, in ssa.Instruction) {
+		c, ok := in.(*ssa.Call)
+		if !ok || c.Call.StaticCallee() == nil || c.Call.StaticCallee().Name() != "mavenOrigin" || loopHeaderOf(b) != loopHeaderOf(openBlk) {
+			return
+		}
+		n++
+		args := flattenVariadic(c.Call.Args)
+		okP := false
+		for _, a := range args {
+			if a == opened {
+				okP = true
+			}
+		}
+		r.Check(okP, rule, site+":origin-path", p.Pos(c.Pos()), "origin built from the path of the file just opened", "the origin under which a parent POM's requirements are filed is not built from the path of the parent file that was opened (e.g. from the referencing file's path): patches for requirements declared in the parent are never applied and the parent is written back unchanged, while the update is reported as done")
+	})
+	r.Instances(rule, "parent origins built while walking local parents", n, 1)
+	// and the same path is appended to the list of files to write
+	okA := false
+	forEachInstr(fn, func(b *ssa.BasicBlock, _ int, in ssa.Instruction) {
+		c, ok := in.(*ssa.Call)
+		if !ok || !isCallTo(c, "builtin", "", "append") || loopHeaderOf(b) != loopHeaderOf(openBlk) {
+			return
+		}
+		if sl, ok := c.Type().Underlying().(*types.Slice); ok {
+			if bt, ok := sl.Elem().Underlying().(*types.Basic); ok && bt.Kind() == types.String {
+				for _, a := range flattenVariadic(c.Call.Args[1:]) {
+					if a == opened {
+						okA = true
+					}
+				}
+			}
+		}
+	})
+	r.Check(okA, rule, site+":written-path", p.Pos(fn.Pos()), "the opened path is remembered for writing", "the path remembered for writing a parent POM back is not the path it was opened from")
 }
